@@ -422,6 +422,9 @@ where
             } else if Ch::EXISTS {
                 // children
                 *position = Position::FirstChild;
+                // branch markers are comments: in `<script>`, `<style>`, `<textarea>` and
+                // `<noscript>` they would be text
+                let mark_branches = mark_branches && E::ESCAPE_CHILDREN;
                 if escapes_content_as_text::<E>() {
                     let mut content = String::new();
                     self.children.to_html_with_buf(
@@ -478,6 +481,9 @@ where
             if !inner_html.is_empty() {
                 buffer.push_sync(&inner_html);
             } else if Ch::EXISTS {
+                // branch markers are comments: in `<script>`, `<style>`, `<textarea>` and
+                // `<noscript>` they would be text
+                let mark_branches = mark_branches && E::ESCAPE_CHILDREN;
                 if escapes_content_as_text::<E>() && !OUT_OF_ORDER {
                     // asynchronous children are streamed in, and everything is
                     // escaped, whenever it arrives
